@@ -548,7 +548,8 @@ class DEVSSimulator(Simulator[TIME], Generic[TIME]):
         
     def schedule_event(self, event: SimEventInterface) -> SimEventInterface:
         """schedule the provided event on the event list"""
-        if event.time < self._simulator_time:
+        # written as 'not >=' so that a NaN time is refused as well
+        if not event.time >= self._simulator_time:
             raise DSOLError("cannot schedule event in the past")
         self._eventlist.add(event)
         return event
